@@ -231,7 +231,20 @@ impl C10 {
                         return Err("a token was created by a user that cannot log in".into());
                     }
                     if taken {
-                        return Err(format!("a second token named {name} was created for the same user"));
+                        // the server may drop an expired token whenever it likes (the cleaner, a restart): a name
+                        // held only by an expired token is free or taken, both are fine - a name held by a token
+                        // that is still valid is not
+                        let holder_expired = self
+                            .tokens
+                            .iter()
+                            .filter(|t| t.owner == owner && !t.deleted && t.name == *name)
+                            .all(|t| t.expiry_at.map(|e| e <= now).unwrap_or(false));
+                        if !holder_expired {
+                            return Err(format!("a second token named {name} was created for the same user"));
+                        }
+                        for t in self.tokens.iter_mut().filter(|t| t.owner == owner && !t.deleted && t.name == *name) {
+                            t.deleted = true;
+                        }
                     }
                     let raw = out.raw_token.clone().ok_or("token created without a raw token")?;
                     self.tokens.push(MToken {
